@@ -179,3 +179,35 @@ def h_split(start: int, dt: int, d1: int, d2: int, e: float) -> bool:
     if not (len(ev1) == n and len(ev2) == n and len(ev3) == n):
         return False
     return I.deq(tuple(ev1), tuple(ev2)) and I.deq(tuple(ev2), tuple(ev3))
+
+
+def h_restep(T: int, e: float, c0: int) -> bool:
+    """
+    C16: a saved payload (state + controller) returned by a step is stepped TWICE: both results are equal (modulo instance
+    ids) and the saved payload reads the same afterwards.  No file readers (cursors are not part of the simulation state).
+    pre: 0 <= T <= 2000000000 and 1 <= e <= 50 and 0 <= c0 <= 2
+    post: _
+    """
+    cell = None
+    for k, c in enumerate((0, 3, 1)):
+        if c0 == k:
+            cell = c
+    if cell is None:
+        return True
+    env, rec = _env(0, 10, 60)
+    v = replace(A.V0, energy=immutables.Map({A.E: e}), position=A.POS[cell])
+    sim = sso.add_vehicle_safe(A.SIM0._replace(sim_time=mk_time(T), sim_timestep_duration_seconds=60), v).unwrap()
+    sim = sso.add_request_safe(sim, A.R0).unwrap()
+    upd = Update((CancelRequests(),), StepSimulation.from_tuple(_gens(env)))
+    rp0 = RunnerPayload(sim, env, upd)
+    rp1 = rp0.u.apply_update(rp0)  # the saved check-point
+    snap1 = I.snap_sim(rp1.s)
+    order1 = tuple(rp1.u.step_update.instruction_generator_order)
+    ra = rp1.u.apply_update(rp1)  # ---- real code, first branch
+    rb = rp1.u.apply_update(rp1)  # ---- second branch from the same check-point
+    note("restep", A.KIND_NAMES[A.kind_of_state(ra.s.vehicles["v0"].vehicle_state)])
+    if not I.deq(I.snap_sim(ra.s, True), I.snap_sim(rb.s, True)):
+        return False
+    if not I.deq(snap1, I.snap_sim(rp1.s)):
+        return False
+    return tuple(rp1.u.step_update.instruction_generator_order) == order1 and len(order1) == 2
